@@ -3,13 +3,21 @@ Driver/C12 — runs the executable model of the multi-layer cache (Model/MultiLa
 layer models) on protocol lines.
 
   begin L=<layer>;<layer>… strat=onhit|after:<n>|manual|freq|age hooks=none|md5|ngdp|noop|err skip=<n>
-        layer = m:<max_entries>:<max_bytes|none>:<lru|fifo>:<long|short>  |  d:<long|short>
+        layer = m:<max_entries>:<max_bytes|none>:<lru|fifo|lfu|random|ttl>:<long|short>  |  d:<long|short>
   put <k> <hex>            putttl <k> <hex> long|short       putl <k> <hex> <layer>
   get <k>                  getl <k> <layer>                  promote <k> <from> <to>
   remove <k>               clear                             bget <k,k,…|->
   bput <k>=<hex>,…|-       putv <k> <ck> <hex>               getv <k> <ck|->
   stats                    fdel <layer> <k>                  fset <layer> <k> <hex>
   skipprobe <len>
+
+put / putttl / putl / promote / bput / putv may carry a last token `ev=<k,k,…|->`: the victims the
+memory layer written by the call was seen to evict (Lfu ties, Random).  The model checks the
+choice is one the policy allows in the layer's state (`hintOk`, C10's `victimsOk`), answers
+`bad-choice` otherwise, and follows it.  Without the token the victims are `detVictims` (Lru / Fifo
+with distinct stamps; the Ttl policy ignores them).  A `bput` of two or more items is outside the
+protocol (`bad-op`) when the first layer is an Lfu / Random memory layer or a Ttl-policy memory
+layer with a short default TTL.
 
 A call whose lock trace requests the tracker lock while holding it is answered `timeout` (the
 real call never returns); the model of the fixed code never produces such a trace
@@ -33,7 +41,8 @@ def parseClass : String → Option Bool
   | "short" => some true | "long" => some false | _ => none
 
 def parsePolicy : String → Option MemCache.Policy
-  | "lru" => some .lru | "fifo" => some .fifo | _ => none
+  | "lru" => some .lru | "fifo" => some .fifo | "lfu" => some .lfu
+  | "random" => some .random | "ttl" => some .ttl | _ => none
 
 def md5Nat (v : List Nat) : List Nat := (Spec.Md5.md5 (v.map (BitVec.ofNat 8))).map (·.toNat)
 
@@ -145,6 +154,26 @@ def showStats (s : State) : String :=
   String.intercalate " " (s.slots.map (fun sl => toString sl.hits ++ "/" ++ toString sl.misses))
     ++ " tracked=" ++ toString s.tracker.length ++ " promos=" ++ toString s.promotions
 
+/-- split a trailing `ev=` token off a writing request: (tokens without it, observed victims) -/
+def splitEv (toks : List String) : Option (List String × Option (List Nat)) :=
+  match toks.getLast? with
+  | some t =>
+    match kv "ev=" t with
+    | some h =>
+      if ["put", "putttl", "putl", "promote", "bput", "putv"].contains (toks.headD "") then
+        (parseKeys h).map (fun vs => (toks.dropLast, some vs))
+      else none
+    | none => some (toks, none)
+  | none => some (toks, none)
+
+/-- a batch put the protocol excludes (victims / expiry inside one call cannot be followed) -/
+def outsideProtocol (s : State) : Op → Bool
+  | .batchPut (_ :: _ :: _) =>
+    match layerAt s 0 with
+    | some (.mem cfg _) => cfg.policy == .lfu || cfg.policy == .random || (cfg.policy == .ttl && cfg.defaultShort)
+    | _ => false
+  | _ => false
+
 def handle (d : Option DSt) (toks : List String) : Option DSt × String :=
   match toks with
   | ["begin", ls, st, hk, sk] =>
@@ -172,10 +201,20 @@ def handle (d : Option DSt) (toks : List String) : Option DSt × String :=
           | some h => if h.skip [] n then "skipped" else "checked")
       | none => (d, "bad-op")
     | _ =>
+      match splitEv toks with
+      | none => (d, "bad-op")
+      | some (toks, hint) =>
       match parseOp toks with
       | none => (d, "bad-op")
       | some op =>
-        let r := step ds.env ds.st op
+        if outsideProtocol ds.st op then (d, "bad-op") else
+        let okChoice := match hint, writeLayer op with
+          | some vs, some i => hintOk ds.st i vs
+          | some _, none => false
+          | none, _ => true
+        if !okChoice then (d, "bad-choice") else
+        let env := { ds.env with victims := hintVictims ds.env.victims hint }
+        let r := step env ds.st op
         if lockOk r.trace then (some { ds with st := r.st }, showOut r.out)
         else (some { ds with st := r.st }, "timeout")
 
